@@ -35,13 +35,16 @@ PAdd(P, Q, c) ==
          IN  Pt(x3, y3)
 PSub(P, Q, c) == PAdd(P, PNeg(Q, c), c)
 
-(* [k]P for a BigNat k: left-to-right double-and-add *)
-RECURSIVE PMulR(_, _, _, _, _)
-PMulR(k, P, c, i, acc) ==
-    IF i < 0 THEN acc
-    ELSE LET d == PDbl(acc, c) IN
-         PMulR(k, P, c, i - 1, IF BBit(k, i) = 1 THEN PAdd(d, P, c) ELSE d)
-PMulNat(k, P, c) == PMulR(k, P, c, BBits(k) - 1, PInf)
+(* [k]P for a BigNat k: left-to-right double-and-add, the bit range folded by halves *)
+(* (recursion depth O(log bits), see lib/Tower.TExpR)                              *)
+RECURSIVE PMulR(_, _, _, _, _, _)
+PMulR(k, P, c, acc, lo, hi) ==         \* acc after consuming bits hi-1 .. lo of k
+    IF hi - lo = 1
+    THEN LET d == PDbl(acc, c) IN IF BBit(k, lo) = 1 THEN PAdd(d, P, c) ELSE d
+    ELSE LET mid == (lo + hi) \div 2
+             a1  == PMulR(k, P, c, acc, mid, hi)
+         IN  IF a1 = a1 THEN PMulR(k, P, c, a1, lo, mid) ELSE a1
+PMulNat(k, P, c) == IF BBits(k) = 0 THEN PInf ELSE PMulR(k, P, c, PInf, 0, BBits(k))
 (* [k]P for a signed k given as sign flag and magnitude *)
 PMul(neg, mag, P, c) == IF neg THEN PNeg(PMulNat(mag, P, c), c) ELSE PMulNat(mag, P, c)
 
